@@ -241,24 +241,28 @@ def f7Forces : List (ForceElt Nat) := [⟨false, false, 1⟩, ⟨true, false, 10
 worker 0 stores 0 + 1: the parallel force's contribution is lost. -/
 def f7Schedule : List Nat := [0, 0, 1, 1, 1, 1, 1, 1, 1, 0, 0, 0, 0, 0, 0]
 
+instance (c : Config Nat) (s : State Nat) : Decidable (Complete c s) := by
+  unfold Complete; exact Nat.decidableBallLT _ _
+
+/-- the transcription of the current code for this configuration -/
+def f7Config : Config Nat := configCurrent 2 .nonCached f7Forces
+
 /-- **`lost_update_witness`**: an explicit complete interleaving of the current code's `NonCached` mode ends
-with total 1 although the serial sum is 1001; it is not race free, and under the repaired task the same
-schedule gives 1001. -/
+with total 1 although the serial sum is 1001 (the parallel force's 1000 is lost); the schedule is not race free. -/
 theorem lost_update_witness :
-    let c := configCurrent 2 .nonCached f7Forces
-    Complete c (run c (init 0) f7Schedule) ∧
-    (run c (init 0) f7Schedule).shared = 1 ∧ totalOf c = 1001 ∧ serialSum .nonCached f7Forces = 1001 ∧
-    ¬ RaceFree c 0 f7Schedule := by
+    Complete f7Config (run f7Config (init 0) f7Schedule) ∧
+    (run f7Config (init 0) f7Schedule).shared = 1 ∧ totalOf f7Config = 1001 ∧
+    serialSum .nonCached f7Forces = 1001 ∧ ¬ RaceFree f7Config 0 f7Schedule := by
   refine ⟨by decide, by decide, by decide, by decide, ?_⟩
   intro h
-  apply h 9
+  apply h 7
   exact ⟨0, 1, by decide, by decide, by decide, true, true, by decide, by decide, Or.inl rfl⟩
 
 /-- non-vacuity of `total_order_independent`: a race-free complete schedule of the current code exists (the
 sequential one) and gives the serial sum -/
 example :
-    let c := configCurrent 2 .nonCached f7Forces
-    Complete c (run c (init 0) (sequentialSchedule c)) ∧ (run c (init 0) (sequentialSchedule c)).shared = 1001 := by
+    Complete f7Config (run f7Config (init 0) (sequentialSchedule f7Config)) ∧
+    (run f7Config (init 0) (sequentialSchedule f7Config)).shared = 1001 := by
   decide
 
 end C17
